@@ -77,6 +77,17 @@ pub const OPS: &[&str] = &[
     "serde-map-from_value",
     "serde-map-to_value",
     "serde-tuple-elements",
+    // a long list that is REJECTED (the error path describes the offending value)
+    "serde-reject-as-string",
+    "serde-reject-as-bool",
+    "serde-reject-nested",
+    // consumers of the cell iterator that ask for size_hint (collect, extend)
+    "iter-collect",
+    "iter-filter-collect",
+    "iter-size_hint",
+    // long lists of dot-initial symbols (the list parsers scan these themselves)
+    "parse-dot-symbols-value",
+    "parse-dot-symbols-datum",
 ];
 
 #[derive(serde_derive::Serialize, serde_derive::Deserialize)]
@@ -408,6 +419,44 @@ pub fn child_listop(c: &J) -> String {
                 std::mem::forget(val);
                 return format!("ok {}", back.len());
             }
+            "serde-reject-as-string" | "serde-reject-as-bool" | "serde-reject-nested" => {
+                let val = build("cons-new", n, dotted);
+                let rejected = match op {
+                    "serde-reject-as-string" => serde_lexpr::from_value::<String>(&val).is_err(),
+                    "serde-reject-as-bool" => serde_lexpr::from_value::<bool>(&val).is_err(),
+                    _ => {
+                        let outer = Value::list(vec![Value::cons(Value::symbol("id"), val.clone())]);
+                        let r = serde_lexpr::from_value::<OnlyId>(&outer).is_err();
+                        std::mem::forget(outer);
+                        r
+                    }
+                };
+                std::mem::forget(val);
+                return if rejected { format!("ok {}", n) } else { "err a list was accepted as a scalar".into() };
+            }
+            "parse-dot-symbols-value" | "parse-dot-symbols-datum" => {
+                let mut t = String::with_capacity(n * 4 + 16);
+                t.push_str("(head");
+                for i in 0..n {
+                    t.push_str(if i % 2 == 0 { " ..." } else { " .x" });
+                }
+                if dotted {
+                    t.push_str(" . end");
+                }
+                t.push(')');
+                let k = if op.ends_with("value") {
+                    let v = lexpr::from_reader(t.as_bytes()).expect("parse");
+                    let k = v.as_cons().map(|c| c.iter().count()).unwrap_or(0);
+                    std::mem::forget(v);
+                    k
+                } else {
+                    let d = lexpr::datum::from_reader(t.as_bytes()).expect("parse");
+                    let k = d.value().as_cons().map(|c| c.iter().count()).unwrap_or(0);
+                    std::mem::forget(d);
+                    k
+                };
+                return format!("ok {}", k - 1);
+            }
             "serde-to_string" => {
                 let v: Vec<u64> = (0..n).map(|i| (i % 10) as u64).collect();
                 let s = serde_lexpr::to_string(&v).expect("to_string");
@@ -471,6 +520,20 @@ pub fn child_listop(c: &J) -> String {
                 };
             }
             "iter-count" => v.as_cons().unwrap().iter().count(),
+            "iter-collect" => v.as_cons().unwrap().iter().collect::<Vec<_>>().len(),
+            "iter-filter-collect" => {
+                let mut out: Vec<&lexpr::Cons> = Vec::new();
+                out.extend(v.as_cons().unwrap().iter().filter(|_| true));
+                out.len()
+            }
+            "iter-size_hint" => {
+                let (lo, hi) = v.as_cons().unwrap().iter().size_hint();
+                if lo > n || hi.map(|h| h < n).unwrap_or(false) {
+                    usize::MAX
+                } else {
+                    n
+                }
+            }
             "iter-half" => v.as_cons().unwrap().iter().take(n / 2).count(),
             "list_iter-exhaust" => {
                 let mut it = v.list_iter().unwrap();
@@ -569,7 +632,7 @@ fn judge(acc: &mut Acc, rank: u64, c: &J, obs: &ChildObs) {
             let dotted = c["shape"].as_str() == Some("dotted");
             let expect: Option<u64> = match op {
                 "build-only" | "clone" | "parse-str-value" | "parse-slice-value" | "parse-reader-value" | "parse-reader-datum" | "parse-str-datum" | "datum-clone" | "datum-tail-owned-drop" | "datum-compound-pairs" | "datum-compound-vectors" | "datum-into-value" | "serde-to_value" | "serde-from_value"
-                | "serde-from_str" | "serde-ignored-any" | "serde-unknown-field" | "serde-unknown-field-str" | "serde-struct-field" | "serde-option-vec" | "serde-map-from_value" | "serde-map-to_value" | "serde-tuple-elements" | "cons.to_vec" | "cons.to_ref_vec" | "cons.into_vec" | "iter-count" | "into_iter-exhaust" => Some(n),
+                | "serde-from_str" | "serde-ignored-any" | "serde-unknown-field" | "serde-unknown-field-str" | "serde-struct-field" | "serde-option-vec" | "serde-map-from_value" | "serde-map-to_value" | "serde-tuple-elements" | "serde-reject-as-string" | "serde-reject-as-bool" | "serde-reject-nested" | "iter-collect" | "iter-filter-collect" | "iter-size_hint" | "parse-dot-symbols-value" | "parse-dot-symbols-datum" | "cons.to_vec" | "cons.to_ref_vec" | "cons.into_vec" | "iter-count" | "into_iter-exhaust" => Some(n),
                 "value.to_vec" | "value.to_ref_vec" => Some(n),
                 // list_iter-exhaust continues past the first None and counts the tail of a dotted list;
                 // the datum loop stops at the first None
